@@ -245,8 +245,8 @@ static void c08_wait_cfg(int ti, int di, int ci, int tier)
 }
 
 /* ---- poll part ---- */
-enum { SK_NULL, SK_NODL, SK_D1, SK_D2, SK_D3, SK_EXPIRED, NSK };
-static const char *const sk_names[] = { "null", "nodl", "d1", "d2", "d3", "expired" };
+enum { SK_NULL, SK_NODL, SK_D1, SK_D2, SK_D3, SK_EXPIRED, SK_D2R, NSK };
+static const char *const sk_names[] = { "null", "nodl", "d1", "d2", "d3", "expired", "d2,exited-and-waited-for" };
 static const int p_interests[] = { REPROC_EVENT_EXIT, REPROC_EVENT_OUT, REPROC_EVENT_OUT | REPROC_EVENT_EXIT };
 static const int p_timeouts[] = { 0, 1, 2, 3, -1 };
 enum { CE_IDLE, CE_OUTPUT, CE_EXIT, NCE };
@@ -269,9 +269,9 @@ static void check_poll(struct proc *procs, int n, const int *kinds, reproc_event
   int64_t bound = tb < dmin ? tb : dmin;
   if (bound != NOD && bound < t0) bound = t0;
   if (r < 0) {
-    /* EPIPE: nothing pollable (all sources null) */
+    /* EPIPE: nothing pollable (all sources null, or reaped with only the exit interest: its exit handle is gone) */
     int any = 0;
-    for (int i = 0; i < n; i++) any |= kinds[i] != SK_NULL;
+    for (int i = 0; i < n; i++) any |= kinds[i] != SK_NULL && !(kinds[i] == SK_D2R && !(src[i].interests & REPROC_EVENT_OUT));
     if (r == REPROC_EPIPE && !any) { vk_hit(CL8_EPIPE); return; }
     struct vk_event *pe = vk_last_event(hx_last_api, C_POLL);
     if (pe && pe->injected > 0 && r == -pe->injected) {
@@ -367,6 +367,7 @@ static void c08_poll_cfg(int n, const int *kinds, int ii, int ti, int ce)
     S->free_run_ok = !(nreal >= 2 && ce != CE_IDLE && timeout < 0);
     /* exact ties between the timeout and a deadline exist on the virtual clock only */
     for (int i = 0; i < n; i++) {
+      if (kinds[i] == SK_D2R) S->free_run_ok = 0;
       if (kinds[i] < SK_D1 || kinds[i] > SK_D3 || timeout <= 0) continue;
       int left = kinds[i] - SK_D1 + 1 - (have_expired_kind(kinds, n) ? 1 : 0); /* nominal ms until this deadline when the first poll starts */
       if (left == timeout || left == 2 * timeout) S->free_run_ok = 0;          /* a tie in the first or in the second poll */
@@ -381,8 +382,19 @@ static void c08_poll_cfg(int n, const int *kinds, int ii, int ti, int ce)
     if (kinds[i] == SK_NULL) continue;
     reproc_options o;
     memset(&o, 0, sizeof o);
-    o.deadline = dl_ms(kinds[i] == SK_NODL ? 0 : kinds[i] == SK_EXPIRED ? 1 : kinds[i] - SK_D1 + 1);
+    o.deadline = dl_ms(kinds[i] == SK_NODL ? 0 : kinds[i] == SK_EXPIRED ? 1 : kinds[i] == SK_D2R ? 2 : kinds[i] - SK_D1 + 1);
     if (kinds[i] == SK_EXPIRED) have_expired = 1;
+    if (kinds[i] == SK_D2R) {
+      /* its child has exited and its status has been collected, but it stays in the array: its deadline still counts */
+      proc_start(&procs[i], "X0 ;", o);
+      int so = vk_cfg.sched_on, to = vk_cfg.time_on;
+      vk_cfg.sched_on = vk_cfg.time_on = 0;
+      int w = hx_wait(procs[i].p, REPROC_INFINITE);
+      vk_cfg.sched_on = so;
+      vk_cfg.time_on = to;
+      if (w != 0) vk_finish(OUT_INFRA, "setup wait returned %d", w);
+      continue;
+    }
     proc_start(&procs[i], ce == CE_OUTPUT ? "W1:1" : ce == CE_EXIT ? "X0" : "", o);
   }
   /* all deadlines count from the same instant; an "expired" one is 1 ms and we let 1 ms pass */
@@ -656,6 +668,7 @@ static const struct c09_setup second[] = {
 #define NSECOND 4
 
 #define NFORKCFG 12
+#define NPRE9 8 /* one source on a handle whose first start (deadline 1 ms) failed; polled after that time has passed */
 
 static void c09_fork_cfg(long k)
 {
@@ -703,19 +716,29 @@ static long c09_n(int tier)
   /* one source: setup x 16 masks x 2 timeouts; two sources: setup x second x {mask pairs reduced} x 2 timeouts, with a NULL source interleaved */
   long one = (long) NSETUP * 16 * 2;
   long two = (long) NSETUP2(tier) * NSECOND * (tier ? 16 : 4) * 2 * 2;
-  return one + two + NFORKCFG;
+  return one + two + NFORKCFG + NPRE9;
 }
 
 static void c09_run(int tier, long cfg)
 {
   long one = (long) NSETUP * 16 * 2;
+  int pre9 = 0;
   {
     long two = (long) NSETUP2(tier) * NSECOND * (tier ? 16 : 4) * 2 * 2;
-    if (cfg >= one + two) { c09_fork_cfg(cfg - one - two); return; }
+    if (cfg >= one + two + NFORKCFG) pre9 = (int) (cfg - one - two - NFORKCFG) + 1;
+    else if (cfg >= one + two) { c09_fork_cfg(cfg - one - two); return; }
   }
   struct c09_setup su[2];
   int masks[2] = { 0, 0 }, timeout, n = 1;
-  if (cfg < one) {
+  if (pre9) {
+    int k = pre9 - 1;
+    timeout = (k & 1) ? 2 : 0;
+    masks[0] = 15;
+    memset(&su[0], 0, sizeof su[0]);
+    su[0].os = (k & 2) ? OS_DATA : OS_IDLE;
+    su[0].ins = INS_IDLE;
+    su[0].cs = (k & 4) ? CS_ZOMBIE : CS_RUNNING;
+  } else if (cfg < one) {
     timeout = (cfg % 2) ? 2 : 0;
     cfg /= 2;
     masks[0] = (int) (cfg % 16);
@@ -748,15 +771,18 @@ static void c09_run(int tier, long cfg)
   if (n == 2)
     snprintf(key9 + strlen(key9), sizeof key9 - strlen(key9), "|second=%s,%s,%s%s", os_names[su[1].os], ins_names[su[1].ins], cs_names[su[1].cs],
              su[1].expired_deadline ? ",deadline-expired" : "");
+  if (pre9) snprintf(key9 + strlen(key9), sizeof key9 - strlen(key9), "|after-failed-start-with-deadline");
   hx_desc("%s", key9);
-  snprintf(key9, sizeof key9, "h_c09|sources=%d", n == 2 ? 3 : 1);
+  snprintf(key9, sizeof key9, "h_c09|sources=%d%s", n == 2 ? 3 : 1, pre9 ? "|second-start" : "");
   hx_begin();
   vk_set_hang_hook(c09_hang);
   struct proc procs[3];
   memset(procs, 0, sizeof procs);
   reproc_event_source src[3];
   int ns = 0;
+  proc_prefail = pre9 != 0;
   c09_prepare(&procs[0], &su[0]);
+  if (pre9) vk_advance(3);
   src[ns].process = procs[0].p; src[ns].interests = masks[0]; src[ns].events = 0x7f; ns++;
   if (n == 2) {
     /* a source without process in between */
